@@ -411,7 +411,7 @@ func pickUniform(t *rapid.T, table []string, label string) string {
 var gateTable = []string{
 	"ok_exact", "ok_exact", "ok_exact", "ok_exact", "ok_more", "ok_more", "ok_more", "ok_more", "ok_far", "ok_far", "ok_far", "ok_far",
 	"ok_exact", "ok_more", "ok_far", "ok_exact",
-	"short_by_one", "at_head", "above_head", "no_consensus_state",
+	"short_by_one", "at_head", "above_head", "no_consensus_state", "young_chain",
 }
 
 // ---- one generated case ------------------------------------------------------------------------
@@ -1112,6 +1112,15 @@ func runCase(t *rapid.T, r *rec.Recorder) {
 		s.Height = s.Head + rapid.Uint64Range(1, minU64(5, math.MaxUint64-s.Head)).Draw(t, "aboveBy")
 	case "no_consensus_state":
 		s.Height = s.Head - s.Delay
+	case "young_chain":
+		// the counterparty's head is still below the required number of confirmations: no height can be confirmed yet
+		if s.Delay < 2 {
+			gate = "ok_exact"
+			s.Height = s.Head - s.Delay
+		} else {
+			s.Head = rapid.Uint64Range(1, s.Delay-1).Draw(t, "youngHead")
+			s.Height = rapid.Uint64Range(0, s.Head).Draw(t, "youngHeight")
+		}
 	}
 	// decoys: neighbours and the head hold the root of the other height
 	for _, h := range []uint64{s.Height - 1, s.Height + 1, s.Head} {
